@@ -76,6 +76,11 @@ def judgeOrder : List Tag → Option String
     else some s!"[{a.name.s},{a.name.e}) before [{b.name.s},{b.name.e})"
   | _ => none
 
+/-- First adjacent pair of emitted tags that is not strictly increasing. -/
+def judgeOrderPair : List Tag → Option (Tag × Tag)
+  | a :: b :: rest => if keyLt (key a) (key b) then judgeOrderPair (b :: rest) else some (a, b)
+  | _ => none
+
 /-! Docs and locals, judged against the matches (spec-level recomputation). -/
 
 /-- Matches of tags patterns that produce a tag for name range `r` (name capture = r, a tag capture). -/
@@ -116,6 +121,38 @@ def judgeKind (cfg : Cfg) (names kinds : List String) (ms : List Mat) (t : Tag) 
       match kindsOf.getLast? with
       | some (d, k) => t.isDef == d && kinds[t.stid]? == some k
       | none => false)
+
+/-- Hull clause: the tag range is the smallest range covering the tagged node and the name node of one of the
+lowest-index matches of the tag's name node (so it covers the tagged node, not only the name). -/
+def judgeHull (cfg : Cfg) (ms : List Mat) (t : Tag) : Bool :=
+  let cands := matchesFor cfg ms t.name
+  match cands.map (·.pat) |>.min? with
+  | none => false
+  | some p =>
+    (cands.filter (·.pat == p)).any (fun m =>
+      let a := capLoop cfg (cfg.pats[m.pat]?.getD {}) m.caps
+      match a.name, a.tag with
+      | some n, some g => t.range.s == min g.sb n.sb && t.range.e == max g.eb n.eb
+      | _, _ => false)
+
+/-- Placement of the name node relative to the tagged node in one of the lowest-index matches of a tag:
+0 inside, 1 equal, 2 in front (name starts before the node), 3 behind (name ends after the node). -/
+def placementOf (cfg : Cfg) (ms : List Mat) (t : Tag) : Option Nat :=
+  let cands := matchesFor cfg ms t.name
+  match cands.map (·.pat) |>.min? with
+  | none => none
+  | some p =>
+    match (cands.filter (·.pat == p)).head? with
+    | none => none
+    | some m =>
+      let a := capLoop cfg (cfg.pats[m.pat]?.getD {}) m.caps
+      match a.name, a.tag with
+      | some n, some g =>
+        if n.sb == g.sb && n.eb == g.eb then some 1
+        else if decide (n.sb < g.sb) then some 2
+        else if decide (n.eb > g.eb) then some 3
+        else some 0
+      | _, _ => none
 
 /-! Local-scope clause: which names must be present, recomputed from the matches with the spec walk. -/
 
